@@ -1,6 +1,7 @@
 package c14
 
 import (
+	"runtime"
 	"bytes"
 	"crypto/sha256"
 	"fmt"
@@ -214,6 +215,8 @@ func submissionsK(r *report.Run, rng *report.Rand, idx int, algo string, path in
 				hw.Add(1)
 				go func() {
 					defer hw.Done()
+					drawn := 0
+					defer func() { r.Count("conc_race.numbers_drawn_alongside", drawn) }()
 					hb := mkBundle("hammer", src, mode, now)
 					for {
 						select {
@@ -222,7 +225,10 @@ func submissionsK(r *report.Run, rng *report.Rand, idx int, algo string, path in
 						default:
 						}
 						s.Core.VerifAssignSequenceNumber(&hb)
-						r.Count("conc_race.numbers_drawn_alongside", 1)
+						drawn++
+						if drawn%64 == 0 {
+							runtime.Gosched()
+						}
 					}
 				}()
 			}
@@ -495,21 +501,21 @@ func TestCheck(t *testing.T) {
 	// larger concurrent groups; in the quick tier this group (only) runs under the race detector: an unsynchronised
 	// access to the counters is reported for any two overlapping submissions, whether or not the tiny window in which
 	// two bundles would actually get the same number is hit in this run
-	r.Group("conc-race", r.Pick(16, 400), func(i int, rng *report.Rand) {
+	r.Group("conc-race", r.Pick(16, 96), func(i int, rng *report.Rand) {
 		algo := []string{"epidemic", "spray", "prophet", "dtlsr", "binary_spray"}[i%5]
 		workers := 3 + i%6
 		path := 0
 		if i%8 == 7 {
 			path = 1 // the agent manager serialises submissions; mostly the direct path is stressed
 		}
-		submissionsK(r, rng, 100000+i, algo, path, workers*r.Pick(4, 12), i%3, i%4 < 2, true, workers)
+		submissionsK(r, rng, 100000+i, algo, path, workers*r.Pick(4, 8), i%3, i%4 < 2, true, workers)
 		r.Count("conc_race.groups", 1)
 	})
 
 	// the keeper alone under contention: W goroutines number bundles of the same few (source, creation time) tuples;
 	// every (tuple, sequence number) pair may be given out once. Runs in the plain and in the race-instrumented pass.
 	for _, g := range []string{"idkeeper-stress", "conc-race-idkeeper"} {
-		r.Group(g, r.Pick(16, 160), func(i int, rng *report.Rand) { keeperStress(r, rng, i) })
+		r.Group(g, r.Pick(16, 64), func(i int, rng *report.Rand) { keeperStress(r, rng, i) })
 	}
 
 	r.Group("restart-gaps", r.Pick(48, 600), func(i int, rng *report.Rand) {
